@@ -12,7 +12,7 @@ TWO32 = 1 << 32
 def gframe(ck, name, ev=None):
     body = ck.prog.one(r"gadgets::%s$" % name, COMMON)
     ck.saw(body)
-    ev = ev or T.Evaluator(ck.prog)
+    ev = ev or T.Evaluator(ck.prog, names=False)
     return ev.frame(body), body
 
 
@@ -20,10 +20,20 @@ def param(body, i, name=None):
     return ("param", body.path, i, name or body.local_name(i) or "_%d" % i)
 
 
+def _gadget_helper_inline(prog):
+    """a gadget-module function this rule file does not name is a helper extracted from one that it does: expand it in place"""
+    from . import e2
+    named = e2.module_anchors(__file__)
+
+    def inline(path):
+        return path.startswith(COMMON + "::gadgets::") and "{closure" not in path and path.rsplit("::", 1)[-1] not in named
+    return inline
+
+
 def analyse(ck):
     ob = Ob()
     prog = ck.prog
-    ev = T.Evaluator(prog)
+    ev = T.Evaluator(prog, inline=_gadget_helper_inline(prog), names=False)
 
     # ------------------------------------------------------------------ xor
     fr, b = gframe(ck, "xor", ev)
